@@ -549,7 +549,7 @@ pub fn prop() -> Prop {
                Deliver(i)/Dup(i)/Drop(i) for ANY of <= 4 in-flight datagrams, TickA/B x1, x61, x121, RestartA/B (fresh object, in-flight pool kept); objects that \
                return a fatal handshake error are discarded as the node does. Oracle in every state: at most one completion per object; if both completed the same \
                attempt: same cipher, opposite halves, exactly one rotation initiator, exchanged payloads, probes open both ways; from every state 125 loss-free \
-               ticks must bring two live objects to a common completed attempt. distinct_nontrivial = canonical states",
+               ticks must bring two live objects to a common completed attempt. Node level: explicit-state search over two real nodes (depth 5 / 6) and all placements of <= 2 deviations incl. one-way loss, timed holds, one-shot dials and a 60 s peer timeout. distinct_nontrivial = canonical states",
         run: run_object_level,
         replay: replay_object_level,
     }
